@@ -76,6 +76,7 @@ func newLifeEnv(delay int, dyn, auto bool) *lifeEnv {
 	}
 	e.st = stream.NewStream(e.cl, e.meta, cfg, &couchbase.Version{Major: 7, Minor: 6}, &couchbase.BucketInfo{BucketType: "membase"},
 		e.disc, e.co, map[uint32]string{}, e.stop, e.eh, tracing.NewTracerComponent())
+	e.eh.st = e.st
 	return e
 }
 
